@@ -66,6 +66,16 @@ def plan(plan, tier, seed):
     except AnchorLost as e:
         plan.anchor_errors.append((n7, str(e)))
     plan.dropped.append(vC17.kind_fn.__doc__.strip())
+    n8 = "C17.verus.pattern_to_value.state_rebuilt_in_order"
+    plan.ob(n8, "verus", "proved", functions=["src/interpreter/src/patterns.rs: pattern_to_value (the tuple arm; the tuple construction of the tuple-struct arm)"],
+            what="the state a transition pattern `:S(e1, .., en)` denotes is the tuple (atom :S, value of e1, .., value of en), each element evaluated once and in order; a tuple pattern denotes the tuple of its elements' values; a failing element is an error -- for every environment and every behaviour of the element evaluation")
+    try:
+        from units import vC16 as _v16
+        utext, pfns = vC17.ptv_unit(vlib.read_repo(vC17.PPATH), _v16.default_features(vlib.read_repo("src/interpreter/Cargo.toml")))
+        plan.verus.append(VerusUnit("c17_ptv", utext, {f: n8 for f in pfns}, ["canary_ptv"]))
+    except AnchorLost as e:
+        plan.anchor_errors.append((n8, str(e)))
+    plan.dropped.append(vC17.ptv_fns.__doc__.strip())
     plan.dropped.append(vC17.arg_fn.__doc__.strip())
     plan.dropped.append(vC17.coverage_fn.__doc__.strip())
     plan.dropped.append(vC17.target_fn.__doc__.strip())
